@@ -215,6 +215,36 @@ func cheapTink(r *hx.Rng, b *base, id uint32) []string {
 	}
 }
 
+// keyVerifierPrefixCases: the verifier of a TINK key used directly must insist on the 5-byte output
+// prefix itself: the bare FIPS 205 signature, the signature behind another id / the CRUNCHY start byte /
+// a flipped prefix bit, and a doubled prefix are rejected (all without running SLH-DSA verification on a
+// correct implementation); a NO_PREFIX key rejects the prefixed signature.
+func keyVerifierPrefixCases(r *hx.Rng, b *base, id uint32, valid bool) []string {
+	p := b.p
+	pre := []byte{1, byte(id >> 24), byte(id >> 16), byte(id >> 8), byte(id)}
+	good := append(append([]byte{}, pre...), b.sig...)
+	tk := func(v string, sig []byte, tag string) string {
+		return fmt.Sprintf("C16|tk|%s|%s|%d|%s|%s|%s|%s", p.name, v, id, hx.H(b.pk), hx.H(b.msg), hx.H(sig), tag)
+	}
+	other := append([]byte{1, byte(id >> 24), byte(id >> 16), byte(id >> 8), byte(id) ^ 1}, b.sig...)
+	crunchy := append([]byte{0, byte(id >> 24), byte(id >> 16), byte(id >> 8), byte(id)}, b.sig...)
+	flip := append([]byte{}, good...)
+	flip[r.Intn(5)] ^= byte(1 << r.Intn(8))
+	out := []string{
+		tk("T", b.sig, "-bare-signature-on-tink-key"),
+		tk("T", other, "-other-id"),
+		tk("T", crunchy, "-crunchy-start-byte"),
+		tk("T", flip, "-prefix-flip"),
+		tk("T", append(append([]byte{}, pre...), good...), "-doubled-prefix"),
+		tk("T", b.sig[5:], "-bare-signature-cut-by-5"),
+		tk("N", good, "-prefix-on-raw-key"),
+		tk("T", good[:5], "-only-prefix"),
+		tk("T", nil, "-empty"),
+	}
+	_ = valid // acceptance through the key's verifier is what every ts / tv case exercises (the keyset wrapper calls it)
+	return out
+}
+
 func kgLine(r *hx.Rng, p *pset, tag string) string {
 	return fmt.Sprintf("C16|kg|%s|%s|%s|%s|%s", p.name, hx.H(r.Bytes(p.n)), hx.H(r.Bytes(p.n)), hx.H(r.Bytes(p.n)), tag)
 }
@@ -265,6 +295,8 @@ func gen(r *hx.Rng, n int, tier string) []string {
 		// two free Tink-verifier rejections (prefix / length classes) per set
 		ct := cheapTink(r, b, uint32(r.U64()))
 		out = append(out, ct[r.Intn(len(ct))], ct[8+r.Intn(len(ct)-8)])
+		// the key's own verifier (no keyset wrapper in front of it): the whole prefix family, every set
+		out = append(out, keyVerifierPrefixCases(r, b, uint32(r.U64()), spend(p.cVf))...)
 		if spend(p.cVf) {
 			out = append(out, vfLine(b, b.pk, b.msg, b.ctx, b.sig, "+valid"))
 		}
